@@ -8,11 +8,14 @@ LEVEL = "proof"
 TARGETS = ['DelAttr', 'ResetAttr', 'Reset', 'MutateAttr']
 FAMILY_FILTER = ['c08.', 'c05.all-cleared'] + STRUCTURAL
 ASSUMPTIONS = A_COMMON + [
+    "protect_via_deepcopy is used by its callers through the contract ProtectCopy; that contract (copier clause) is discharged against "
+    "the function body in the sub-check ProtectBody, where copy.deepcopy itself is the assumed A-COPY and the module guard is used through its C20 contracts",
     "clauses of other properties on the same functions are discharged by those properties' own checks",
     "transitive chains of invalidation, collection element helpers, update/transform (mutate_value) and the constructor are covered here "
     "only through the bounded harness; their contracts live in the checks of C05/C06/C09",
 ]
 EXPLANATION = "del / reset_<attr> / reset install what Attr.lookup_default_value yields for the instance's class - the very function the constructor uses - as a mutate-safe value: never the class-level default object itself"
+SUBCHECKS = [("props._copy_protect", ["ProtectBody"])]
 FINDINGS = []
 
 
